@@ -453,7 +453,7 @@ mutual
         | [r] =>
           if !isShared e r then .bad badNotShared
           else if racyRead e muts [r] (index ++ reads) then .bad badRacyRead
-          else if index.any (fun x => match e.get x with
+          else if !acc && index.any (fun x => match e.get x with
               | some i => !i.outer
               | none => false) then .slot
           else if acc then .accum (arrayId r)
@@ -485,26 +485,75 @@ end
 def mentions (e : Env) (r : String) (xs : List String) : Bool := (rootsOf e xs).contains r
 
 mutual
-  /-- `initS e r depth st`: `none` if `st` does not mention array `r`; otherwise `some ok`, where `ok` tells whether this
-  first mention is an unconditional overwrite of the whole array (`r.fill(..)`, `numpy.copyto(r, ..)`), i.e. `r` is a
-  scratch buffer that every iteration initialises before use.  `depth` = number of enclosing blocks (the loop itself is 1). -/
-  def initS (e : Env) (r : String) (depth : Nat) : SStmt → Option Bool
-    | .assign _ _ reads => if mentions e r reads then some false else none
+  /-- does a statement mention (a view of) array `r` anywhere? -/
+  def mentS (e : Env) (r : String) : SStmt → Bool
+    | .assign _ _ reads => mentions e r reads
+    | .mutate _ base index reads => mentions e r (base ++ index ++ reads)
+    | .other reads => mentions e r reads
+    | .withLock _ body => mentL e r body
+    | .par _ reads body => mentions e r reads || mentL e r body
+    | .block _ reads body => mentions e r reads || mentL e r body
+    | .unknown => true
+  def mentL (e : Env) (r : String) : List SStmt → Bool
+    | [] => false
+    | s :: rest => mentS e r s || mentL e r rest
+end
+
+/-- where a statement list first touches an array, and how -/
+inductive Init where
+  /-- not mentioned -/
+  | absent
+  /-- the first mention is not a complete overwrite, or a later mention is not dominated by it -/
+  | bad
+  /-- the first mention is an unconditional overwrite of the whole array (`r.fill(..)`, `numpy.copyto(r, ..)`) in this very
+  statement list (possibly inside `with lock:`): it dominates every later statement of the list -/
+  | here
+  /-- as `here`, but inside a nested block (`for` / `if` / …) of this list; no statement outside that block mentions the array -/
+  | nested
+  /-- the first mention is an overwrite of a slice `r[.. local names ..]` selected by loop-local variables: the buffer of an inner
+  `LoopConcatenate`, written slice by slice.  That the slices of one pass of the inner loop tile the array is NOT established
+  syntactically (assumption `tiling` of the check); nothing is claimed about dominance. -/
+  | tiled
+deriving Repr, DecidableEq
+
+def isLocal (e : Env) (x : String) : Bool :=
+  match e.get x with
+  | some i => !i.outer
+  | none => false
+
+mutual
+  /-- `initS e r st`: is array `r` a scratch buffer in `st`, i.e. is every mention of `r` dominated — within the same execution of
+  the enclosing block — by an unconditional overwrite of the whole array?  Mentions are taken modulo the alias rule (`mentions`
+  looks at allocation sites). -/
+  def initS (e : Env) (r : String) : SStmt → Init
+    | .assign _ _ reads => if mentions e r reads then .bad else .absent
     | .mutate acc base index reads =>
-      if mentions e r (index ++ reads) then some false
-      else if mentions e r base then some (!acc && base == [r] && index.isEmpty && depth ≤ 1)
-      else none
-    | .other reads => if mentions e r reads then some false else none
-    | .withLock _ body => initL e r depth body
-    | .par _ reads body => if mentions e r reads then some false else initL e r (depth + 1) body
-    | .block _ reads body => if mentions e r reads then some false else initL e r (depth + 1) body
-    | .unknown => some false
-  def initL (e : Env) (r : String) (depth : Nat) : List SStmt → Option Bool
-    | [] => none
+      if mentions e r (index ++ reads) then .bad
+      else if mentions e r base then
+        (if !acc && base == [r] && index.isEmpty then .here
+         else if !acc && base == [r] && index.all (isLocal e) then .tiled
+         else .bad)
+      else .absent
+    | .other reads => if mentions e r reads then .bad else .absent
+    | .withLock _ body => initL e r body
+    | .par _ reads body => if mentions e r reads then .bad else
+      match initL e r body with
+      | .here => .nested
+      | x => x
+    | .block _ reads body => if mentions e r reads then .bad else
+      match initL e r body with
+      | .here => .nested
+      | x => x
+    | .unknown => .bad
+  def initL (e : Env) (r : String) : List SStmt → Init
+    | [] => .absent
     | s :: rest =>
-      match initS e r depth s with
-      | some b => some b
-      | none => initL e r depth rest
+      match initS e r s with
+      | .absent => initL e r rest
+      | .here => .here
+      | .nested => if mentL e r rest then .bad else .nested
+      | .tiled => .tiled
+      | .bad => .bad
 end
 
 /-- state of the walk over the statements outside the parallel loops -/
@@ -527,7 +576,8 @@ mutual
       let e0 := bindFresh false st.env binds
       let (e1, m) := mutL e0 body
       let m := m.eraseDups
-      let scr := (m.filter fun r => !isShared e0 r).filter fun r => initL e1 r 0 body == some true
+      -- per-iteration scratch: initialised inside the loop over the shared range (`nested`), never directly in the `with` body
+      let scr := (m.filter fun r => !isShared e0 r).filter fun r => initL e1 r body == .nested || initL e1 r body == .tiled
       let (_, b) := clsL m (scratch ++ scr) e0 body
       ({ st with pending := st.pending ++ scr }, liveCheck st reads ++ [b])
     | .block binds reads body =>
